@@ -167,8 +167,13 @@ class NameWalk(sgr.Walk):
         return sgr.Walk.read(self, lv)
 
 
+DEAD = "dead"
+
+
 def ref_step(streak, letter, L):
     """reference automaton: new streak or 'reject'"""
+    if streak == DEAD:
+        return "reject"
     if letter == ":":
         return "reject" if streak + 1 > L else streak + 1
     if letter == "x":
@@ -211,7 +216,7 @@ def compare(fn, sepchar, L):
             except sgr.Giveup as e:
                 raise ShapeUnrecognised("name check: cannot follow %r from state %s: %s" % (letter, dict(st), e))
             want = ref_step(rs, letter, L)
-            label = "after a run of %d separator character(s), on %s" % (rs, {":": "another separator character", "x": "any other character", "end": "the end of the name"}[letter])
+            label = ("after a run of %d separator character(s)" % rs if rs != DEAD else "after a point where the name is already ill-formed") + ", on %s" % {":": "another separator character", "x": "any other character", "end": "the end of the name"}[letter]
             if out[0] == "ret":
                 got = "accept" if out[1] == "Ok" else "reject"
                 if letter != "end" and got == "accept":
@@ -223,9 +228,13 @@ def compare(fn, sepchar, L):
                     results.append((label + ": keeps scanning past the end", False))
                     continue
                 if want == "reject":
-                    results.append((label + ": accepted (the reference rejects here)", False))
-                    continue
-                results.append((label + ": continues", True))
+                    # the reference rejects here.  An implementation that only notes the failure (a `valid` flag) and goes on is
+                    # equivalent as long as nothing is accepted from here on: the walk continues against the reference's dead
+                    # state, where every answer but "reject" is a disagreement
+                    results.append((label + ": goes on (must reject whatever follows)", True))
+                    want = DEAD
+                else:
+                    results.append((label + ": continues", True))
                 key = ((out[1], out[2]), want)
                 if key not in seen:
                     if len(seen) > MAX_STATES:
